@@ -275,6 +275,7 @@ def generate_special_types(model: model.LSPModel, types: TypeData) -> None:
             elif type_def.name == "SelectionRange":
                 lines += [
                     "#[derive(Serialize, Deserialize, PartialEq, Debug, Eq, Clone)]",
+                    '#[serde(rename_all = "camelCase")]',
                     "pub struct SelectionRange {",
                 ]
                 for property in type_def.properties:
